@@ -1,12 +1,36 @@
 import TabulaModel.Util
 import TabulaModel.Model.Docx
 import TabulaModel.Model.Odt
+import TabulaModel.Model.DocxRender
+import TabulaModel.Model.OdtRender
+import TabulaModel.Model.StyleCache
+import TabulaModel.Model.VMergeSpec
 /-
 Line protocol for C16.
 
   c16.docx <document.xml tree> <styles.xml tree | ->
   c16.odt  <content.xml tree>  <styles.xml tree | ->
   c16.odtcols <table:table tree>      reply: number of column widths (`len(ParsedTable.ColWidths)`)
+  c16.docx.views <document.xml tree> <styles | -> <numbering | -> <header trees> <footer trees>
+                 <exH 0|1> <exF 0|1> <heading offset> <max heading level> <call sequence>
+      the views of ONE reader asked for in the order of the call sequence
+      (T TextWithOptions, M MarkdownWithOptions, R MarkdownWithRAGOptions, D Document, L ModelTables,
+      P the parsed element list); header / footer trees: '-' or trees separated by ';'
+      reply: one answer per call, separated by spaces: T:<hex> M:<hex> R:<hex> D:<doc> L:<tables> P:<n>|<elems>
+        doc   := elements separated by ';': p:<hex text> | h<level>:<hex text>
+                 | l<0|1>:<item>,<item>…  (item = <level>.<hex bullet>.<hex text>) | t:<grid>
+        grid  := rows separated by '/', cells by ',', cell = <hex text>.<rowSpan>.<colSpan>
+  c16.docx.resolve <styles | -> <hex id>,<hex id>,…      one style resolver, `Resolve` called for the ids in order
+  c16.odt.resolve <content.xml tree> <styles | -> <hex name>,…     reply: h<level> | - per call, separated by ','
+  c16.docx.cached <document.xml tree> <styles | ->   the element list computed WITH the resolver's cache (reply as c16.docx)
+  c16.docx.api <document.xml tree> <styles | -> <numbering | -> <header trees> <footer trees> <exH> <exF>
+  c16.odt.api <content.xml tree> <styles | -> <exH> <exF>
+      tabula.Open(f)[.ExcludeHeaders()][.ExcludeFooters()] .Text() / .ToMarkdown() / .Document()
+      reply: T:<hex> M:<hex> D:<doc>
+  c16.docx.vmerge <w:tbl tree>    the row spans of the table by the state-free specification of the vertical-merge
+                 pass (`bumpAll rows (targets rows)`); reply: rows separated by '/', row spans by ','
+  c16.odt.views <content.xml tree> <styles | -> <exH> <exF> <heading offset> <max heading level> <call sequence>
+      the same for ONE odt reader (header / footer texts come from the master pages of styles.xml)
 
 tree := '(' hex(tag) { '@' hex(attr) '=' hex(value) } { tree | '\'' hex(text) } ')'
 (hex of the empty string is "-").
@@ -101,6 +125,54 @@ def dumpOdt (e : Odt.Elem) : String :=
     s!"p:{hd p.heading}:{l}:{hexS p.text}"
   | .table rows => "t:" ++ "/".intercalate (rows.map fun r => ",".intercalate (r.map dumpOdtCell))
 
+/-- '-' or trees separated by ';' -/
+def parseTrees (s : String) : Option (List Node) :=
+  if s == "-" then some [] else (s.splitOn ";").mapM parseTree
+
+def dumpGrid (g : List (List Render.MCell)) : String :=
+  "/".intercalate (g.map fun r => ",".intercalate (r.map fun c => s!"{hexS c.text}.{c.rowSpan}.{c.colSpan}"))
+
+def dumpDocElem (e : Docx.DocElem) : String :=
+  match e with
+  | .para t => s!"p:{hexS t}"
+  | .heading l t => s!"h{l}:{hexS t}"
+  | .list o items => s!"l{b01 o}:" ++ ",".intercalate (items.map fun it => s!"{it.level}.{hexS it.bullet}.{hexS it.text}")
+  | .table g => "t:" ++ dumpGrid g
+
+def orDash (s : String) : String := if s.isEmpty then "-" else s
+
+/-- the answer of one call of the call sequence -/
+def docxView (rd : Docx.Reader) (opts : Docx.ExtractOptions) (o : Docx.MdOptions) (v : Char) : String :=
+  match v with
+  | 'T' => "T:" ++ hexS (Docx.textWithOptions rd opts)
+  | 'M' => "M:" ++ hexS (Docx.markdownWithOptions rd opts)
+  | 'R' => "R:" ++ hexS (Docx.markdownWithRAGOptions rd opts o)
+  | 'D' => "D:" ++ orDash (";".intercalate ((Docx.document rd).map dumpDocElem))
+  | 'L' => "L:" ++ orDash (";".intercalate ((Docx.modelTables rd).map dumpGrid))
+  | 'P' => let els := rd.elements.map (·.1); s!"P:{els.length}|" ++ ";".intercalate (els.map dumpDocx)
+  | _ => "?"
+
+def dumpOdtDocElem (e : Odt.DocElem) : String :=
+  match e with
+  | .para t => s!"p:{hexS t}"
+  | .heading l t => s!"h{l}:{hexS t}"
+  | .list o items => s!"l{b01 o}:" ++ ",".intercalate (items.map fun it => s!"{it.level}.{hexS it.bullet}.{hexS it.text}")
+  | .table g => "t:" ++ dumpGrid g
+
+def odtView (rd : Odt.Reader) (opts : Odt.ExtractOptions) (o : Odt.MdOptions) (v : Char) : String :=
+  match v with
+  | 'T' => "T:" ++ hexS (Odt.textWithOptions rd opts)
+  | 'M' => "M:" ++ hexS (Odt.markdownWithOptions rd opts)
+  | 'R' => "R:" ++ hexS (Odt.markdownWithRAGOptions rd opts o)
+  | 'D' => "D:" ++ orDash (";".intercalate ((Odt.document rd).map dumpOdtDocElem))
+  | 'L' => "L:" ++ orDash (";".intercalate ((Odt.modelTables rd).map dumpGrid))
+  | 'P' => let els := rd.elements.map (·.elem); s!"P:{els.length}|" ++ ";".intercalate (els.map dumpOdt)
+  | _ => "?"
+
+/-- comma-separated hex strings ("-" = the empty string) -/
+def parseHexList (s : String) : Option (List Str) :=
+  (s.splitOn ",").mapM fun h => (unhex h).map fun bs => bs.map (·.toNat)
+
 def handle (op : String) (args : List String) : String :=
   match op, args with
   | "c16.docx", [doc, styles] =>
@@ -115,6 +187,56 @@ def handle (op : String) (args : List String) : String :=
       let els := Odt.elements d st
       s!"{els.length} {";".intercalate (els.map dumpOdt)}"
     | _, _ => "bad-op"
+  | "c16.docx.views", [doc, styles, numbering, hdrs, ftrs, exH, exF, off, mx, seq] =>
+    match parseTree doc, parseOptTree styles, parseOptTree numbering, parseTrees hdrs, parseTrees ftrs, off.toInt?, mx.toInt? with
+    | some d, some st, some nm, some hs, some fs, some off, some mx =>
+      let rd := Docx.openReader d st nm hs fs
+      let opts : Docx.ExtractOptions := { excludeHeaders := exH == "1", excludeFooters := exF == "1" }
+      let o : Docx.MdOptions := { offset := off, maxLevel := mx }
+      " ".intercalate (seq.toList.map (docxView rd opts o))
+    | _, _, _, _, _, _, _ => "bad-op"
+  | "c16.odt.views", [content, styles, exH, exF, off, mx, seq] =>
+    match parseTree content, parseOptTree styles, off.toInt?, mx.toInt? with
+    | some d, some st, some off, some mx =>
+      let rd := Odt.openReader d st
+      let opts : Odt.ExtractOptions := { excludeHeaders := exH == "1", excludeFooters := exF == "1" }
+      let o : Odt.MdOptions := { offset := off, maxLevel := mx }
+      " ".intercalate (seq.toList.map (odtView rd opts o))
+    | _, _, _, _ => "bad-op"
+  | "c16.docx.resolve", [styles, ids] =>
+    match parseOptTree styles, parseHexList ids with
+    | some st, some ids => ",".intercalate ((Docx.resolveSeq (Docx.stylesOf st) [] ids).1.map hd)
+    | _, _ => "bad-op"
+  | "c16.odt.resolve", [content, styles, names] =>
+    match parseTree content, parseOptTree styles, parseHexList names with
+    | some d, some st, some ns => ",".intercalate ((Odt.resolveSeq (Odt.allStyles d st) [] ns).1.map hd)
+    | _, _, _ => "bad-op"
+  | "c16.docx.cached", [doc, styles] =>
+    match parseTree doc, parseOptTree styles with
+    | some d, some st =>
+      let els := Docx.elementsC d st
+      s!"{els.length} {";".intercalate (els.map dumpDocx)}"
+    | _, _ => "bad-op"
+  | "c16.docx.api", [doc, styles, numbering, hdrs, ftrs, exH, exF] =>
+    match parseTree doc, parseOptTree styles, parseOptTree numbering, parseTrees hdrs, parseTrees ftrs with
+    | some d, some st, some nm, some hs, some fs =>
+      let rd := Docx.openReader d st nm hs fs
+      let a : Docx.ApiOptions := { excludeHeaders := exH == "1", excludeFooters := exF == "1" }
+      s!"T:{hexS (Docx.apiText rd a)} M:{hexS (Docx.apiMarkdown rd a)} D:{orDash (";".intercalate ((Docx.apiDocument rd).map dumpDocElem))}"
+    | _, _, _, _, _ => "bad-op"
+  | "c16.odt.api", [content, styles, exH, exF] =>
+    match parseTree content, parseOptTree styles with
+    | some d, some st =>
+      let rd := Odt.openReader d st
+      let a : Odt.ApiOptions := { excludeHeaders := exH == "1", excludeFooters := exF == "1" }
+      s!"T:{hexS (Odt.apiText rd a)} M:{hexS (Odt.apiMarkdown rd a)} D:{orDash (";".intercalate ((Odt.apiDocument rd).map dumpOdtDocElem))}"
+    | _, _ => "bad-op"
+  | "c16.docx.vmerge", [tbl] =>
+    match parseTree tbl with
+    | some t =>
+      let rows := Docx.parseRows t
+      "/".intercalate ((Docx.bumpAll rows (Docx.targets rows)).map fun r => ",".intercalate (r.map fun c => s!"{c.rowSpan}"))
+    | none => "bad-op"
   | "c16.odtcols", [tbl] =>
     match parseTree tbl with
     | some t => s!"{Odt.columnCount t}"
